@@ -195,7 +195,7 @@ CLAIMS = {
              "nothing IFF the node conforms - every child declared or a Z segment, every cardinality met, every child conforming, recursively down to the segments (C04_message for the message level). The "
              "whole-tree equivalence 'conforms iff no errors' is decided on /repo by an independent declarative conformance judgement over generated instances and "
              "single-point mutations (partial); it is false for structures with duplicate rows (finding D17).",
-        note=NOTE_COMMON + "Reference = standard tables (profiles: C18, not yet claimed); warnings only through the report-file consistency clause.",
+        note=NOTE_COMMON + "Reference = the standard tables, plus references with one row edited: a cardinality grid [min..max] x k occurrences handed to Validator.validate(reference=...), and a same-named reference forbidding one segment interleaved with the standard one (profiles proper: C18); warnings only through the report-file consistency clause.",
         technique="Lean 4 proof (list lemmas over the report assembly) + differential correspondence + independent conformance oracle on mutations",
         design="DESIGN.md §5 C04"),
     'C05': dict(
